@@ -35,7 +35,7 @@ func pickProfile(r *kit.Rng) profile {
 	if r.Chance(1, 3) {
 		p.keys = []uint32{1, 2}
 	}
-	switch r.Intn(12) {
+	switch r.Intn(13) {
 	case 0, 1, 2:
 		p.name = "contend"
 	case 3, 4:
@@ -71,6 +71,12 @@ func pickProfile(r *kit.Rng) profile {
 		// the leader calls AcquireLeadership again for the key it leads and the insert fails with a
 		// storage error (before or after its effect); then another participant tries to acquire
 		p.name = "reacquire-insert-error"
+		p.np, p.keys = 2, []uint32{1}
+		p.durs = []int{kit.Pick(r, []int{4, 8, 20, 40})}
+	case 12:
+		// a storage call of the leader (a renewal's CompareAndSwap, or the acquiring insert's return)
+		// is held while the clock moves on, up to beyond D/2 and beyond the record's expiry (finding U3)
+		p.name = "slow-call"
 		p.np, p.keys = 2, []uint32{1}
 		p.durs = []int{kit.Pick(r, []int{4, 8, 20, 40})}
 	}
@@ -275,6 +281,66 @@ func (p *profile) driveReacquire(r *kit.Rng, e *exec, sc *scenario) {
 	}
 }
 
+// driveSlowCall scripts the slow-call family
+func (p *profile) driveSlowCall(r *kit.Rng, e *exec, sc *scenario) {
+	do := func(c choice) bool {
+		if e.apply(c) {
+			sc.Script = append(sc.Script, c)
+			return true
+		}
+		return false
+	}
+	finish := func(t string) {
+		for n := 0; n < 20 && (do(choice{C: "eff", T: t, O: "ok"}) || do(choice{C: "ret", T: t})); n++ {
+		}
+	}
+	d := p.durs[0]
+	total := kit.Pick(r, []int64{int64(d) * 1e9 / 8, int64(d)*1e9/2 + 1e9, int64(d)*1e9 + 1e9})
+	slow := func() { // the clock moves by `total` while whatever is held stays held
+		end := e.r.nowNs() + total
+		for n := 0; n < 80 && e.err == nil && e.r.nowNs() < end; n++ {
+			if !do(choice{C: "advx", Ns: end - e.r.nowNs()}) {
+				break
+			}
+			if r.Chance(1, 6) && do(choice{C: "acq", P: 1, K: 1, V: 11, D: d}) {
+				finish("a1")
+			}
+		}
+	}
+	if !do(choice{C: "acq", P: 0, K: 1, V: 10, D: d}) {
+		return
+	}
+	if r.Chance(1, 4) { // the insert has taken effect, its return is slow
+		do(choice{C: "eff", T: "a0", O: "ok"})
+		slow()
+	}
+	finish("a0")
+	if len(e.lis) == 0 {
+		return
+	}
+	for n := r.Intn(2); n > 0; n-- {
+		do(choice{C: "adv"})
+		finish("g0")
+	}
+	do(choice{C: "adv"}) // the tick: the renewal's CompareAndSwap is at its entry
+	if r.Bool() {
+		do(choice{C: "eff", T: "g0", O: kit.Pick(r, []string{"ok", "errb", "erra"})}) // slow return instead of slow entry
+	}
+	slow()
+	if do(choice{C: "acq", P: 1, K: 1, V: 11, D: d}) {
+		finish("a1")
+	}
+	finish("g0")
+	for n := 0; n < 4 && e.err == nil; n++ {
+		if !do(choice{C: "adv"}) {
+			break
+		}
+		for _, l := range e.lis {
+			finish(fmt.Sprintf("g%d", l.id))
+		}
+	}
+}
+
 // epilogue: let every held call through, let time pass timer by timer, clean everybody up and
 // let the longest leadership duration elapse, so that a context that is never cancelled shows
 func (e *exec) epilogue() {
@@ -362,6 +428,8 @@ func runScenario(sc *scenario, p *profile, r *kit.Rng) (kit.Case, error) {
 		p.driveLateRetry(r, e, sc)
 	} else if p != nil && p.name == "reacquire-insert-error" {
 		p.driveReacquire(r, e, sc)
+	} else if p != nil && p.name == "slow-call" {
+		p.driveSlowCall(r, e, sc)
 	} else if p != nil {
 		for n := 0; n < p.steps && e.err == nil; n++ {
 			c, ok := p.next(r, e)
